@@ -29,7 +29,7 @@ INFO = {
                                'node_aligned_points': 500, 'batches_after_moving_geometry': 12},
                   'seen': {'aid_combination': 8}, 'nontrivial': 3000},
         'thorough': {'counters': {'point_queries': 600000, 'points': 80000, 'points_3d': 40000, 'lines': 12000, 'track_segments_checked': 60000,
-                                  'node_aligned_points': 5000, 'batches_after_moving_geometry': 100},
+                                  'node_aligned_points': 5000, 'batches_after_moving_geometry': 60},
                      'seen': {'aid_combination': 8}, 'nontrivial': 60000},
     },
     'watchdog_s': {'quick': 1500, 'thorough': 7200},
@@ -130,7 +130,10 @@ def make_geo(ctx, kind):
         name = kind.split('-')[0]
         geo = geos.load_shipped(name)
         if name == 'g3':
+            # not a valid mesh as shipped; repaired, then derived data refreshed as a careful caller
+            # would (that check(fix=True) leaves name lists and neighbour sets stale is C10 matter)
             geo.check(fix=True, silent=True)
+            geo.identify_neighbours()
             geos.refresh(geo)
         if kind.endswith('refined'):
             cols = rng.sample([c for c in geo.columnlist if c.num_nodes in (3, 4)], 6)
@@ -270,7 +273,10 @@ def make_aids(ctx, geo, snap):
             ('bounds-rectangle', lambda e, p: {'bounds': bounds_rect}),
             ('columns-subset', subset),
             ('quadtree', lambda e, p: {'qtree': qt_all}),
-            ('quadtree-subset', qt_subset),
+            # (a quadtree over a column subset is not used as an aid: its search spreads through
+            #  neighbours that intersect the leaf rectangle *and* belong to the subset, which even for a
+            #  connected patch need not connect the leaf's columns to the answer; the statement names
+            #  the quadtree of the grid)
             ('guess-far+quadtree', lambda e, p: dict(far_guess(e, p), qtree=qt_all)),
             ('guess-neighbour+bounds', lambda e, p: dict(nbr_guess(e, p) or {}, bounds=bounds_rect) if nbr_guess(e, p) else None)]
     if bpoly is not None and convex_domain:
